@@ -1,6 +1,7 @@
 package main
 
 import (
+	"fmt"
 	"math"
 
 	"github.com/paulmach/orb"
@@ -91,6 +92,21 @@ func init() {
 			}
 			e["out"] = q["c"]
 			e["pstable"] = c17Prev.check(out)
+			// the same line - the very same slice, spare capacity and all - resampled once more at another resolution: the
+			// first result is the caller's and stays what it was
+			if total > 0 && len(vs) >= 2 && c17Calls%3 == 0 {
+				snap := fmt.Sprint(out)
+				guard(func() {
+					if fn == "Resample" {
+						resample.Resample(ls, df, n+2)
+					} else {
+						resample.ToInterval(ls, df, float64(dn)/float64(dd)/2)
+					}
+				})
+				if fmt.Sprint(out) != snap {
+					e["pstable"] = 0
+				}
+			}
 			if N >= 2 && total > 0 {
 				e["nt"] = 1
 			}
@@ -210,8 +226,10 @@ func init() {
 			k := 2 + c.rng.Intn(6)
 			ls := make(orb.LineString, k)
 			x, y := 0.0, 0.0
+			// ... at every scale: the same figure a few thousand million times smaller (nano-scale lines) or larger
+			scale := []float64{1, 1, math.Ldexp(1, -34), math.Ldexp(1, -50), math.Ldexp(1, 30)}[c.rng.Intn(5)]
 			for j := range ls {
-				ls[j] = orb.Point{x, y}
+				ls[j] = orb.Point{x * scale, y * scale}
 				x += float64(c.rng.Intn(20)) / 10
 				if c.rng.Intn(3) == 0 {
 					y += float64(c.rng.Intn(20)-10) / 10
